@@ -67,7 +67,7 @@ def longest_to(g, targets, pred=True):
     return max(d for d in dist.values() if d is not None)
 
 
-def check_graph(chk, P, names, edges, counters):
+def check_graph(chk, P, names, edges, counters, light=False):
     c = make(names, edges)
     g = c.graph
     cyc = not g.is_dag()
@@ -107,7 +107,7 @@ def check_graph(chk, P, names, edges, counters):
         expect("C12.Q.endpoints", "of-node", call("endpoints", n), ({n} | g.descendants(n)) & ep)
     expect("C12.Q.startpoints", "all", call("startpoints"), {x for x in names if c.type(x) == "input"})
     expect("C12.Q.endpoints", "all", call("endpoints"), c.outputs())
-    for pair in itertools.combinations(names, 2):
+    for pair in ([] if light else itertools.combinations(names, 2)):
         pl = list(pair)
         expect("C12.Q.fanin", "list", call("fanin", pl), set().union(*[set(g._pred[x]) for x in pl]))
         expect("C12.Q.fanout", "list", call("fanout", pl), set().union(*[set(g._succ[x]) for x in pl]))
@@ -151,7 +151,7 @@ def check_graph(chk, P, names, edges, counters):
                 if r != ("return", want):
                     fail(f"C12.Q.{meth}", "single", r, want)
     if not cyc:
-        for pair in itertools.combinations(names, 2):
+        for pair in ([] if light else itertools.combinations(names, 2)):
             for meth, pred in (("fanin_depth", True), ("fanout_depth", False)):
                 r = call(meth, list(pair))
                 counters["obs"][f"C12.Q.{meth}"] = counters["obs"].get(f"C12.Q.{meth}", 0) + 1
@@ -173,12 +173,13 @@ def check_graph(chk, P, names, edges, counters):
         if set(got) != want or len(got) != len(set(got)):
             fail("C12.Q.reconvergent_fanout_nodes", "misses-a-reconvergent-node" if want - set(got) else "reports-a-non-reconvergent-node", sorted(got), sorted(want))
     expect("C12.Q.has_reconvergent_fanout", "value", call("has_reconvergent_fanout"), bool(want))
-    # kcuts (acyclic only)
+    # kcuts (acyclic only); once with a fresh memo per call and once with the documented shared `computed` cache
     if not cyc:
         srcs = {x for x in names if not g._pred[x]}
-        for n in names:
-            for k in (1, 2):
-                r = call("kcuts", n, k)
+        shared = {1: {}, 2: {}}
+        for n, k, use_shared in [(n, k, s) for s in (False, True) for n in names for k in (1, 2)]:
+            if True:
+                r = call("kcuts", n, k, shared[k]) if use_shared else call("kcuts", n, k)
                 counters["obs"]["C12.Q.kcuts"] = counters["obs"].get("C12.Q.kcuts", 0) + 1
                 if r[0] != "return":
                     fail("C12.Q.kcuts", "raises", r, "cuts")
@@ -321,9 +322,19 @@ def run(chk):
         for names, edges in all_digraphs(n):
             check_graph(chk, P, names, edges, counters)
             n_graphs += 1
-    stride = 1 if chk.tier == "thorough" else 23
-    for names, edges in all_digraphs(4, stride=stride):
-        check_graph(chk, P, names, edges, counters)
+    # 4 nodes: every acyclic digraph (543; depth / kcuts / reconvergence only make sense there) and a systematic
+    # subset (quick) or all (thorough) of the cyclic ones
+    idx = 0
+    for names, edges in all_digraphs(4):
+        g = MDiGraph()
+        for x in names:
+            g.add_node(x)
+        g.add_edges_from(edges)
+        dag = g.is_dag()
+        idx += 1
+        if not dag and chk.tier != "thorough" and idx % 37:
+            continue
+        check_graph(chk, P, names, edges, counters, light=(chk.tier != "thorough" and dag and idx % 5 != 0))
         n_graphs += 1
     for rule, cnt in sorted(counters["obs"].items()):
         mine = {k: v for k, v in counters["fails"].items() if v[0] == rule}
